@@ -213,6 +213,17 @@ C17_Snapshots == \A c \in Chans : \A i \in 1..Len(delivered[c]) :
       (i > 1 /\ crashes = 0) => LET p == delivered[c][i-1].rec  n == delivered[c][i] IN
                  (Apply(p, n.ev, ArgOf(n.ev, p, n.rec)).kind = "applied" /\ Apply(p, n.ev, ArgOf(n.ev, p, n.rec)).rec = n.rec)
 
+(* C06: the durable record only changes by Persist of a planned record, so a crash between any two steps *)
+(* leaves a state that was current once (a prefix of the applied events); statuses stay well-formed.       *)
+C06_Prefix == \A c \in Chans : store[c].status \in Status /\ (pset[c] => pend[c].status \in Status)
+C06_OnlyPersistWrites == [][\A c \in Chans : store'[c] # store[c] => (pset[c] /\ store'[c] = pend[c])]_vars
+
+(* C19: voucher logs are append-only *)
+C19_AppendOnly == [][\A c \in Chans : /\ Len(store'[c].vouchers) >= Len(store[c].vouchers)
+                                      /\ SubSeq(store'[c].vouchers, 1, Len(store[c].vouchers)) = store[c].vouchers
+                                      /\ Len(store'[c].results) >= Len(store[c].results)
+                                      /\ SubSeq(store'[c].results, 1, Len(store[c].results)) = store[c].results]_vars
+
 (* C07: totals and indexes never decrease *)
 C07_Monotone == [][\A c \in Chans : /\ store'[c].queued >= store[c].queued /\ store'[c].sent >= store[c].sent
                                     /\ store'[c].received >= store[c].received /\ store'[c].qIdx >= store[c].qIdx
